@@ -36,7 +36,8 @@ bool cmd_option_exists(char **begin, char **end, const std::string &option)
 
 void read_affinity_data(const boost::filesystem::path &filename,
                         const bool &assortative,
-                        std::vector<double> &w)
+                        std::vector<double> &w,
+                        const size_t expected_nof_groups)
 {
     std::ifstream in(filename.string());
     if (in.fail())
@@ -69,9 +70,8 @@ void read_affinity_data(const boost::filesystem::path &filename,
         std::istringstream is(line);
         size_t current_nof_groups(0);
 
-        // First character - could be # or layer id
-        is >> tok;
-        if (tok == "#")
+        // First character - could be # or layer id; skip blank-only lines and comments
+        if (!(is >> tok) || tok == "#")
         {
             continue;
         }
@@ -81,39 +81,69 @@ void read_affinity_data(const boost::filesystem::path &filename,
         {
             current_nof_groups++;
         }
-        if (nof_groups == 0)
+        if (nof_layers == 0)
         {
             nof_groups = current_nof_groups;
         }
-        assert(current_nof_groups = nof_groups);
+        if (current_nof_groups != nof_groups)
+        {
+            throw std::runtime_error(
+                "In read_affinity_data, inconsistent number of values per layer: " +
+                std::to_string(current_nof_groups) + " != " + std::to_string(nof_groups));
+        }
         nof_layers++;
+    }
+
+    // Check the dimensions against the expected ones
+    const size_t expected_size = assortative ? nof_groups * nof_layers
+                                             : nof_groups * nof_groups * nof_layers;
+    if (nof_groups == 0 || expected_size != w.size() ||
+        (expected_nof_groups != 0 && expected_nof_groups != nof_groups))
+    {
+        throw std::runtime_error(
+            "In read_affinity_data, the file describes " + std::to_string(nof_layers) +
+            " layers and " + std::to_string(nof_groups) +
+            " groups, which does not match the expected affinity size " + std::to_string(w.size()));
     }
 
     // Now build vector...
     in.clear();
     in.seekg(0);
 
+    std::vector<bool> layer_seen(nof_layers, false);
     while (!in.eof())
     {
         std::getline(in, line);
         if (line.size() == 0)
-            continue; // skip over empty lines and comments
+            continue; // skip over empty lines
 
         // Remove trailing whitespaces
         line.erase(line.find_last_not_of(" ") + 1);
 
         std::istringstream is(line);
 
+        // skip blank-only lines and comments
+        if (!(is >> tok) || tok == "#")
+        {
+            continue;
+        }
+
         // Layer ID
         size_t layer;
-        is >> layer;
+        std::istringstream layer_stream(tok);
+        if (!(layer_stream >> layer) || !layer_stream.eof() || layer >= nof_layers || layer_seen[layer])
+        {
+            throw std::runtime_error(
+                "In read_affinity_data, invalid or duplicated layer id: " + tok);
+        }
+        layer_seen[layer] = true;
 
-        // Groups values - only diagnoal terms
-        size_t group(1), index(0);
+        // Groups values - only diagonal terms: entry (k, k, layer), see Tensor::get_index
+        size_t group(0), index(0);
         while (is >> value)
         {
-            index = assortative ? group
-                                : group * group - 1 + layer * nof_groups * nof_groups;
+            index = assortative ? group + layer * nof_groups
+                                : group + group * nof_groups + layer * nof_groups * nof_groups;
             w[index] = value;
             group++;
         }
